@@ -6,7 +6,11 @@ sys.path.insert(0, HERE)
 import driver
 from checks import CHECKS
 rc = 0
+with open(os.path.join(HERE, "ready.txt")) as f:
+    READY = set(f.read().split())
 for pid, cfg in CHECKS.items():
+    if pid not in READY:
+        continue
     for race in sorted({bool(t.get("race")) for t in cfg["tests"]}):
         if driver.build(pid, cfg, driver.REPO, race=race) is None:
             rc = 1
